@@ -32,7 +32,7 @@ macro_rules! stats_struct {
 }
 stats_struct!(
     bodies, applies, deliveries, postponed, max_postponed_one_target, nested_replay, skipped_dead, skipped_dead_postponed, optional_taken, optional_skipped, polled_events, polled_in_tree, polled_reactions, payloads, payload_zero_listeners, payload_abort_release, doomed_insts, once_fired, once_retrigger_after_fire, revokes_applied, revoke_mid_dispatch, kills, kill_self, err_returns, excl_bodies, registrations, reg_dead_entity, slot_respawn, max_depth, roots, multi_kind_same_tree, sibling_reorder, frames, guaranteed_gc, guaranteed_poll, a1_ambiguous, ewr_bodies, ewr_nodata_ok, inserts_dead_at_apply, setifneq_equal, setifneq_diff, removal_reinsert_removal, sig_zero, entity_recursive_despawn, fifo_pairs_checked, sys_calls, reactors_per_key_ge7,
-    probes, ev_total, replayed, sys_recursive, acc_ops, single_acc, app_setup_again, bulk_collected, max_bulk, ewr_readd, res_removed, res_trigger_while_absent, excl_flushed_in_body, sig_zero_during_gc, sig_moved_into_entity, collected_observed, sig_zero_in_tree
+    probes, ev_total, replayed, sys_recursive, acc_ops, single_acc, app_setup_again, bulk_collected, max_bulk, ewr_readd, res_removed, res_trigger_while_absent, excl_flushed_in_body, sig_zero_during_gc, sig_moved_into_entity, collected_observed, sig_zero_in_tree, payload_owned_signal_released
 );
 
 #[derive(Clone, Debug)]
@@ -172,6 +172,8 @@ struct Payload
     /// deliveries scheduled to read it that are neither done nor skipped
     unresolved: Vec<(Inst, bool)>,
     must_drop_now: bool,
+    /// a signal clone owned by the payload
+    holds: Option<usize>,
 }
 
 #[derive(Clone, Debug)]
@@ -277,6 +279,8 @@ pub struct Checker<'a>
     in_gc: bool,
     /// entities whose last signal clone was gone when a guaranteed collection started: they must be gone when it is over
     gc_must: Vec<EntId>,
+    gc_pending_deadline: bool,
+    gc_before: Vec<bool>,
     /// entities whose last signal clone went inside the current root tree: every runner exit collects, so they must be gone
     /// when the tree ends
     doomed_in_tree: Vec<EntId>,
@@ -320,7 +324,7 @@ impl<'a> Checker<'a>
             tokens: vec![None; prog.insts.len()], res: [0, 0, 0], res_t_present: true, payloads: HashMap::new(), pending_immediate_drop: None,
             polled: Vec::new(), postponed: Vec::new(), stack: Vec::new(), tree_depth: 0, seq: 0, sender: (DRIVER, 0),
             wr_keys: [Vec::new(), Vec::new()], sigs: vec![(None, 0); 4], doomed_ents: Vec::new(), resolve_uncertain: Vec::new(), fifo: HashMap::new(),
-            gc_guaranteed_this_step: false, in_direct_step: false, in_gc: false, gc_must: Vec::new(), doomed_in_tree: Vec::new(), sig_harness: [0; 4], deferred_bail: None, bulk_released: 0, bulk_held: 0, bulk_alive: 0, wq: Default::default(), iss_counter: 0, cur_iss: 0, iss_of: HashMap::new(), sys: Default::default(),
+            gc_guaranteed_this_step: false, in_direct_step: false, in_gc: false, gc_must: Vec::new(), gc_pending_deadline: false, gc_before: Vec::new(), doomed_in_tree: Vec::new(), sig_harness: [0; 4], deferred_bail: None, bulk_released: 0, bulk_held: 0, bulk_alive: 0, wq: Default::default(), iss_counter: 0, cur_iss: 0, iss_of: HashMap::new(), sys: Default::default(),
         }
     }
 
@@ -392,6 +396,7 @@ impl<'a> Checker<'a>
                 }
                 self.payloads.get_mut(id).unwrap().dropped = true;
                 if self.pending_immediate_drop == Some(*id) { self.pending_immediate_drop = None; }
+                if let Some(k) = p.holds { self.stats.payload_owned_signal_released += 1; self.sig_release(k); }
                 Ok(true)
             }
             Ev::Gone(bits) =>
@@ -467,7 +472,7 @@ impl<'a> Checker<'a>
     fn advance(&mut self) -> Res<()>
     {
         self.judge_floats(true)?;
-        if !self.gc_must.is_empty() { self.gc_deadline()?; }
+        if self.gc_pending_deadline { self.gc_deadline()?; }
         self.pos += 1;
         Ok(())
     }
@@ -792,14 +797,17 @@ impl<'a> Checker<'a>
         // must be gone when it is over. (An entity released *during* the pass -- its last clone was owned by something the
         // pass despawned -- may go now or with the next collection.)
         for e in self.doomed_ents.clone() { if self.ents[e].alive && !self.gc_must.contains(&e) { self.gc_must.push(e); } }
-        let before: Vec<bool> = self.insts.iter().map(|t| t.doomed).collect();
-        // a collection keeps going until nothing is left to collect: reactors released by what it despawned go too
-        for (i, t) in self.insts.iter_mut().enumerate() { if t.doomed && t.alive && !t.busy { t.alive = false; if !before[i] { t.chain_doomed = true; } } }
+        self.gc_before = self.insts.iter().map(|t| t.doomed).collect();
+        self.gc_pending_deadline = true;
     }
 
     /// After a guaranteed collection (and the `Gone` events it produced) has been consumed.
     fn gc_deadline(&mut self) -> Res<()>
     {
+        self.gc_pending_deadline = false;
+        // a collection keeps going until nothing is left to collect: reactors released by what it despawned go too
+        let before = std::mem::take(&mut self.gc_before);
+        for (i, t) in self.insts.iter_mut().enumerate() { if t.doomed && t.alive && !t.busy { t.alive = false; if !before.get(i).copied().unwrap_or(true) { t.chain_doomed = true; } } }
         for e in std::mem::take(&mut self.gc_must)
         {
             if self.ents[e].alive
@@ -817,7 +825,18 @@ impl<'a> Checker<'a>
     fn payload_issue(&mut self, id: u32)
     {
         self.stats.payloads += 1;
-        self.payloads.insert(id, Payload { applied: false, dropped: false, unresolved: Vec::new(), must_drop_now: false });
+        self.payloads.insert(id, Payload { applied: false, dropped: false, unresolved: Vec::new(), must_drop_now: false, holds: None });
+    }
+
+    /// The payload takes one of the harness's clones of signal `k` with it (if the harness holds one).
+    fn payload_take_signal(&mut self, id: u32, k: u8)
+    {
+        let k = k as usize % 4;
+        if self.sig_harness[k] > 0
+        {
+            self.sig_harness[k] -= 1;
+            if let Some(p) = self.payloads.get_mut(&id) { p.holds = Some(k); }
+        }
     }
 
     fn payload_apply(&mut self, id: u32, readers: &[Delivery]) -> Res<()>
@@ -1584,6 +1603,9 @@ impl<'a> Checker<'a>
             Op::SysEvent(i, p) => { let k = known(self, *i); if k.is_some() { self.payload_issue(u); } Issued::SysEvent(k, *p) }
             Op::Broadcast(p) => { self.payload_issue(u); Issued::Broadcast(*p) }
             Op::EntityEvent(s, p) => { self.payload_issue(u); Issued::EntityEvent(slot(self, *s), *p) }
+            Op::BroadcastSig(p, k) => { self.payload_issue(u); self.payload_take_signal(u, *k); Issued::Broadcast(*p) }
+            Op::EntityEventSig(s, p, k) => { self.payload_issue(u); self.payload_take_signal(u, *k); Issued::EntityEvent(slot(self, *s), *p) }
+            Op::SysEventSig(i, p, k) => { let kn = known(self, *i); if kn.is_some() { self.payload_issue(u); self.payload_take_signal(u, *k); } Issued::SysEvent(kn, *p) }
             Op::TriggerRes(r) => Issued::TriggerRes(*r),
             Op::Insert(s, c, v) => { let e = slot(self, *s); Issued::Insert(e, *c, *v, self.ents[e].alive) }
             Op::Remove(s, c) => { let e = slot(self, *s); Issued::Remove(e, *c, self.ents[e].alive) }
